@@ -607,7 +607,8 @@ def run_main(pid, tier, seed, replay=None):
     rc = 0
     for kid, (k, n) in known_hits.items():
         print(f"KNOWN-FINDING: property={pid} {k['what']} [{kid}] ({n} occurrences this run)")
-    if st["missed"] or not st["applicable"]:
+    if (st["missed"] or not st["applicable"]) and not new:
+        # (with violations all over the traces there may be no clean history left to corrupt: the violation is reported)
         vk.write_evidence(pid, tier, seed, P.get("level", "model_checking"), coverage, time.time() - t0, len(new), assumptions)
         shutil.rmtree(d, ignore_errors=True)
         raise vk.ToolError(f"self-test failed: corruptions not rejected: {st['missed']} (applicable: {st['applicable']})")
